@@ -18,7 +18,7 @@ def gen_expr(r, d=0):
             return ('num', r.choice(['0', '1', '2', '10', '3.5', '007', '12.50']))
         if k == 1:
             return ('str', r.choice(['"s"', "'t'", '""', 'r"\\n"', '"a b"', '"#no comment"', '"semi;colon"', '"f\x0cf"', '"u\u2028u"', '"two  blanks"', '"t\tab"',
-                                     '"%in string%"', '"100%"', "'q\x1cs'"]))
+                                     '"%in string%"', '"100%"', "'q\x1cs'", '"("', '"a)"', '"[x"', '"}"', '"hi :)"', '"{[("', "')'", '"# ("', '"\\""']))
         if k == 2:
             return ('kw', r.choice(['True', 'False', 'None']))
         return ('name', r.choice(NAMES))
